@@ -55,4 +55,246 @@ theorem skipWs16 (n : Bool) (F : Nat) (hF : src.size < F) {sx sg : St} (hR : R16
         rw [e1, hto.2, hc] at hb2
         exact Or.inr hb2
 
+
+theorem leaf_ite {n : Bool} {c : Prop} [Decidable c] {X1 X2 G1 G2 : St × Option Token}
+    {Q : St × Option Token → Prop} (hq : Q (if c then G1 else G2))
+    (h1 : c → Q G1 → Leaf16 src n X1 G1) (h2 : ¬c → Q G2 → Leaf16 src n X2 G2) :
+    Leaf16 src n (if c then X1 else X2) (if c then G1 else G2) := by
+  by_cases hc : c
+  · simp only [hc, if_true] at hq ⊢; exact h1 hc hq
+  · simp only [hc, if_false] at hq ⊢; exact h2 hc hq
+
+theorem goStepOK_tok {U : UCls} {sg : St} {r : St × Option Token} (h : goStepOK U src sg r = true) :
+    ∀ t, r.2 = some t → goTokOK U src t = true := by
+  intro t ht
+  unfold goStepOK at h
+  rw [ht] at h
+  simp only [Bool.and_eq_true] at h
+  exact h.1
+
+theorem goStepOK_comment {U : UCls} {sg : St} {r : St × Option Token} (h : goStepOK U src sg r = true)
+    (hc : r.2 = none ∨ ∃ t, r.2 = some t ∧ t.kind = Tokens.Go.COMMENT) : sg.insertSemi = false := by
+  unfold goStepOK at h
+  rcases hc with hc | ⟨t, ht, hk⟩
+  · rw [hc] at h; simpa using h
+  · rw [ht] at h
+    simp only [Bool.and_eq_true, Bool.not_eq_true', Bool.and_eq_false_iff] at h
+    rcases h.2 with h2 | h2
+    · simp [hk] at h2
+    · exact h2
+
+theorem scanCommentTok_go_shape (U : UCls) (c n : Bool) (F : Nat) (st : St) (pos : Nat) :
+    (scanCommentTok (cfgG U c n) src F st pos false).2 = none ∨
+      ∃ t, (scanCommentTok (cfgG U c n) src F st pos false).2 = some t ∧ t.kind = Tokens.Go.COMMENT := by
+  unfold scanCommentTok
+  simp only [cfgG, if_true]
+  cases c with
+  | true =>
+    simp only [if_true]
+    right
+    exact ⟨_, (finish_fst _ _ _ _ _ _).2, rfl⟩
+  | false =>
+    simp only [Bool.false_eq_true, if_false]
+    left; trivial
+
+/-- an operator-switch result of go on a byte it does not know is ILLEGAL: outside the domain -/
+theorem go_illegal16 {U : UCls} {c n : Bool} {sg st1 : St} {pos ch : Nat} (hl : (codes .go).ops.lookup ch = none)
+    (hu : st1.unitVal = []) (hok : goStepOK U src sg (opFinish (cfgG U c n) src st1 pos ch) = true) : False := by
+  have ht := goStepOK_tok hok
+  unfold opFinish at ht
+  simp only [cfgG, hl] at ht
+  have key : ∀ st2 : St, st2.unitVal = [] →
+      (∀ t, (finish { d := Dialect.go, comments := c, noSemis := n, U := U } st2 pos (codes Dialect.go).ILLEGAL
+        (encodeRune ch) st2.insertSemi).2 = some t → goTokOK U src t = true) → False := by
+    intro st2 hu2 hk
+    have := hk _ (finish_tok_go _ st2 pos _ _ _ hu2)
+    exact goTokOK_not_illegal this rfl
+  refine key _ ?_ ht
+  split
+  · exact hu
+  · split <;> simp [hu]
+
+theorem step16 (U : UCls) (c n : Bool) {sx sg : St} (hR : R16 src n sx sg)
+    (hok : goStepOK U src sg (scanStep (cfgG U c n) src (src.size + 1) sg) = true) :
+    Leaf16 src n (scanStep (cfgX U c n) src (src.size + 1) sx) (scanStep (cfgG U c n) src (src.size + 1) sg) := by
+  obtain ⟨hA, hoffle, hsemig⟩ := skipWs16 (src := src) n (src.size + 1) (Nat.lt_succ_self _) hR
+  have hux := hR.unit
+  have hug : sg.unitVal = [] := by rw [← hR.same.unitVal]; exact hux
+  unfold scanStep at hok ⊢
+  simp only [cfgX, cfgG, reduceCtorEq, if_false, if_true, hR.nl, hux, hug, ne_eq, not_true_eq_false, and_false,
+    not_false_eq_true, and_true] at hok ⊢
+  generalize skipWs src (src.size + 1) sx = ax at hA hoffle hok ⊢
+  generalize skipWs src (src.size + 1) sg = ag at hA hsemig hok ⊢
+  have hS := hA.same
+  have hi := hA.inv
+  have hig := hi.ofSame hS
+  have huA := hA.unit
+  have hugA : ag.unitVal = [] := by rw [← hS.unitVal]; exact huA
+  have hF : src.size < src.size + 1 := Nat.lt_succ_self _
+  have hprev : n = true → ax.insertSemi = ag.insertSemi := by
+    intro hn
+    rcases hA.semi with h | ⟨h, _⟩
+    · exact h
+    · rw [hn] at h; cases h
+  -- align the go side with the xgo side
+  have hch : ag.ch = ax.ch := hS.ch.symm
+  have hoff : ag.off = ax.off := hS.off.symm
+  have hpk : peek src ag = peek src ax := by unfold peek; rw [hS.rdOff]
+  have hSn := Same.next (src := src) hS
+  have hnch : (next src ag).ch = (next src ax).ch := hSn.ch.symm
+  have hnpk : peek src (next src ag) = peek src (next src ax) := by unfold peek; rw [hSn.rdOff]
+  simp only [huA, hugA, not_true_eq_false, if_false] at hok ⊢
+  rw [hch, hoff, hpk, hnch, hnpk] at hok
+  rw [hch, hoff, hpk, hnch, hnpk]
+  -- `finish` on states reached from the two aligned states
+  have fin : ∀ (sa sb : St) (k : Nat) (lit : List UInt8) (s : Bool), Same sa sb → Adv src ax sa → Adv src ag sb →
+      Leaf16 src n (finish { d := Dialect.xgo, comments := c, noSemis := n, U := U } sa ax.off k lit s)
+        (finish { d := Dialect.go, comments := c, noSemis := n, U := U } sb ax.off k lit s) := by
+    intro sa sb k lit s hs aa ab
+    refine finish16 U c n hs (aa.unit.trans huA) (ab.nl.trans hA.nl) ax.off k lit s s ?_ (Or.inl rfl)
+    intro hn; rw [aa.semi, ab.semi]; exact hprev hn
+  obtain ⟨k1, k2, k3, k4, k5, k6, k7, k8, k9, k10, k11, k12, k13, k14⟩ := codes16
+  have a1x := Adv.ofNext hi
+  have a1g := Adv.ofNext hig
+  refine leaf_ite (Q := fun r => goStepOK U src sg r = true) hok ?_ ?_
+  · -- identifier
+    intro _ hq
+    have := ident16 U c n (src.size + 1) hF hS hi huA hA.nl hprev (by rw [hoff]; exact goStepOK_tok hq)
+    rw [hoff] at this
+    exact this
+  · intro _ hok
+    refine leaf_ite (Q := fun r => goStepOK U src sg r = true) hok ?_ ?_
+    · -- number
+      intro _ hq
+      have := number16 U c n (src.size + 1) hF hS hi huA hA.nl hprev (by rw [hoff]; exact goStepOK_tok hq)
+      rw [hoff] at this
+      exact this
+    · intro _ hok
+      refine leaf_ite (Q := fun r => goStepOK U src sg r = true) hok ?_ ?_
+      · -- end of file
+        intro heof hq
+        have hse : ax.insertSemi = ag.insertSemi := by
+          rcases hA.semi with h | ⟨_, _, _, h, _⟩
+          · exact h
+          · exact absurd heof h
+        simp only [next_insertSemi, hse] at hq ⊢
+        refine leaf_ite (Q := fun r => goStepOK U src sg r = true) hq ?_ ?_
+        · intro _ _
+          exact autoSemi16 U c n hSn (by rw [next_unitVal]; exact huA) (by rw [next_nlPos]; exact hA.nl) ax.off
+        · intro _ _
+          rw [k2]
+          exact fin _ _ _ _ _ hSn a1x a1g
+      · intro heof hok
+        refine leaf_ite (Q := fun r => goStepOK U src sg r = true) hok ?_ ?_
+        · -- newline
+          intro _ _
+          exact autoSemi16 U c n hSn (by rw [next_unitVal]; exact huA) (by rw [next_nlPos]; exact hA.nl) ax.off
+        · intro _ hok
+          have hfa : src.size - (next src ax).off < src.size + 1 := by omega
+          have hfg : src.size - (next src ag).off < src.size + 1 := by omega
+          have hoff1 : 1 ≤ (next src ax).off := by have := next_off_lt hi heof; omega
+          have hoff1g : 1 ≤ (next src ag).off := by rw [← hSn.off]; exact hoff1
+          refine leaf_ite (Q := fun r => goStepOK U src sg r = true) hok ?_ ?_
+          · -- string
+            intro _ _
+            have hs := Same.scanString (src := src) (src.size + 1) hSn
+            rw [← hs.2, k9]
+            exact fin _ _ _ _ _ hs.1 (a1x.trans (scanString_ok (src.size + 1) _ a1x.inv hfa).1)
+              (a1g.trans (scanString_ok (src.size + 1) _ a1g.inv hfg).1)
+          · intro _ hok
+            refine leaf_ite (Q := fun r => goStepOK U src sg r = true) hok ?_ ?_
+            · -- rune
+              intro _ _
+              have hs := Same.scanRune (src := src) (src.size + 1) hSn
+              rw [← hs.2, k8]
+              exact fin _ _ _ _ _ hs.1 (a1x.trans (scanRune_ok (src.size + 1) _ a1x.inv hfa hoff1).1)
+                (a1g.trans (scanRune_ok (src.size + 1) _ a1g.inv hfg hoff1g).1)
+            · intro _ hok
+              refine leaf_ite (Q := fun r => goStepOK U src sg r = true) hok ?_ ?_
+              · -- raw string
+                intro _ _
+                have hs := Same.scanRawString (src := src) (src.size + 1) hSn
+                rw [← hs.2, k9]
+                exact fin _ _ _ _ _ hs.1 (a1x.trans (scanRawString_ok (src.size + 1) _ a1x.inv hfa).1)
+                  (a1g.trans (scanRawString_ok (src.size + 1) _ a1g.inv hfg).1)
+              · intro _ hok
+                refine leaf_ite (Q := fun r => goStepOK U src sg r = true) hok ?_ ?_
+                · -- '.'
+                  intro _ hq
+                  refine leaf_ite (Q := fun r => goStepOK U src sg r = true) hq ?_ ?_
+                  · -- '...'
+                    intro _ hq
+                    have hS3 := Same.next (src := src) (Same.next (src := src) hSn)
+                    have a3x := a1x.thenNext.thenNext
+                    have a3g := a1g.thenNext.thenNext
+                    rw [k12]
+                    simp only [false_and, decide_false, true_and] at hq ⊢
+                    have hlen : lineEndOrComment src (next src (next src (next src ax))).off = false := by
+                      have ht := goStepOK_tok hq _ (finish_tok_go _ _ _ _ _ _ (a3g.unit.trans hugA))
+                      have := goTokOK_lenient ht (Or.inr rfl)
+                      simp only at this
+                      rw [← hS3.off] at this
+                      exact this
+                    have key : ∀ (s : Bool),
+                        Leaf16 src n (finish { d := Dialect.xgo, comments := c, noSemis := n, U := U } (next src (next src (next src ax))) ax.off (codes Dialect.go).ELLIPSIS [] s)
+                          (finish { d := Dialect.go, comments := c, noSemis := n, U := U } (next src (next src (next src ag))) ax.off (codes Dialect.go).ELLIPSIS [] false) := by
+                      intro s
+                      refine finish16 U c n hS3 (a3x.unit.trans huA) (a3g.nl.trans hA.nl) ax.off _ _ s false ?_ ?_
+                      · intro hn; rw [a3x.semi, a3g.semi]; exact hprev hn
+                      · cases s with
+                        | false => exact Or.inl rfl
+                        | true => exact Or.inr ⟨rfl, rfl, hlen⟩
+                    exact key _
+                  · intro _ _
+                    rw [k11]
+                    exact fin _ _ _ _ _ hSn a1x a1g
+                · intro _ hok
+                  refine leaf_ite (Q := fun r => goStepOK U src sg r = true) hok ?_ ?_
+                  · -- ';'
+                    intro _ _
+                    rw [k10]
+                    refine finish16 (src := src) U c n ?_ ?_ ?_ ax.off _ _ false false ?_ (Or.inl rfl)
+                    · exact Same.mk' rfl hSn.off hSn.rdOff hSn.lineOff hSn.unitVal hSn.nlPos hSn.errs hSn.fail
+                    · simp only [next_unitVal]; exact huA
+                    · simp only [next_nlPos]; exact hA.nl
+                    · intro hn; simp only [next_insertSemi]; exact hprev hn
+                  · intro hsc hok
+                    have hu1x : (next src ax).unitVal = [] := by rw [next_unitVal]; exact huA
+                    have hu1g : (next src ag).unitVal = [] := by rw [next_unitVal]; exact hugA
+                    have hn1g : (next src ag).nlPos = none := by rw [next_nlPos]; exact hA.nl
+                    have hprev1 : n = true → (next src ax).insertSemi = (next src ag).insertSemi := by
+                      intro hn; simp only [next_insertSemi]; exact hprev hn
+                    by_cases h35 : ax.ch = 35
+                    · -- '#': an illegal character for go/scanner
+                      exfalso
+                      have hc47 : ¬ (ax.ch = 47 ∧ ((next src ax).ch = 47 ∨ (next src ax).ch = 42)) := by
+                        rw [h35]; intro h; omega
+                      rw [if_neg hc47] at hok
+                      have hok' : goStepOK U src sg (opFinish (cfgG U c n) src (next src ag) ax.off ax.ch) = true := by
+                        simpa only [cfgG] using hok
+                      exact go_illegal16 (by rw [h35]; decide +kernel) hu1g hok'
+                    · rw [if_neg h35]
+                      refine leaf_ite (Q := fun r => goStepOK U src sg r = true) hok ?_ ?_
+                      · -- comment: no semicolon is pending
+                        intro hcm hq
+                        have hsg : sg.insertSemi = false := by
+                          apply goStepOK_comment hq
+                          have := scanCommentTok_go_shape (src := src) U c n (src.size + 1) (next src ag) ax.off
+                          simp only [cfgG] at this
+                          exact this
+                        have hagf : ag.insertSemi = false := hsemig.trans hsg
+                        have haxf : ax.insertSemi = false := by
+                          rcases hA.semi with h | ⟨_, _, _, _, _, h⟩
+                          · rw [h]; exact hagf
+                          · exact absurd hcm h
+                        have := comment16 U c n (src.size + 1) hF hS hi huA hA.nl hcm.1 hcm.2 haxf hagf
+                        simp only [cfgX, cfgG, hoff] at this
+                        exact this
+                      · -- operators
+                        intro _ hq
+                        have hq' : goStepOK U src sg (opFinish (cfgG U c n) src (next src ag) ax.off ax.ch) = true := by
+                          simpa only [cfgG] using hq
+                        have := ops16 U c n hSn a1x.inv hu1x hn1g hprev1 ax.off ax.ch (goStepOK_tok hq')
+                        simpa only [cfgX, cfgG] using this
+
 end GopModel.Scan
